@@ -182,6 +182,7 @@ func main() {
 		}()
 		explanation := run(ctx)
 		props.AnchorRules(ctx)
+		explanation += props.AnchorExplanation
 		if *tier == "thorough" {
 			results := replaySeeds(*verif, abs, *prop)
 			fired, applied, benign, silent := 0, 0, 0, 0
